@@ -22,7 +22,7 @@ CHECKS = {
             True),
     "C03": ("venum", "exploration", "complete enumeration of the 13-point backend/dispatch configuration lattice, differential against the reference models and across points",
             "6/C03",
-            "The configuration lattice (6 std-dispatch points via hook H1, 5 no_std compile-time points, no_simd with/without std) is enumerated completely; in every point the same probe runs every dispatching algorithm on a bounded input set, compares with the reference models and the fingerprints of all points must be equal, and the Machine type the dispatch actually instantiated (reported by the probe) must be the one the point selects (implementation-selection oracle).",
+            "The configuration lattice (6 std-dispatch points via hook H1, 5 no_std compile-time points, no_simd with/without std) is enumerated completely; in every point the same probe runs every dispatching algorithm on a bounded input set, compares with the reference models and the fingerprints of all points must be equal, and the Machine type each of the three dispatch macros instantiates (reported by the probe) must be the portable one under no_simd and otherwise must not exceed what the point permits (implementation-selection oracle).",
             "inputs per point are a bounded set (C01/C04/C06 go deeper on the default point); all backends are executed on this AVX2 host",
             True),
     "C04": ("venum", "exploration", "bounded-exhaustive enumeration of message lengths and bit positions against an independent BLAKE model",
@@ -97,7 +97,7 @@ CHECKS = {
             True),
     "C18": ("vsched", "model_checking", "exhaustive enumeration of all call-granularity interleavings of 3-4 threads in cold subprocesses under a baton scheduler, and of instance interleavings in one thread",
             "6/C18",
-            "Every interleaving of the threads' calls (1680 / 2520 schedules per scenario, 11 scenarios) is executed in a fresh process with real OS threads under a baton scheduler, so each lazy global is first touched at every position by every thread, and again on a single thread; per-thread results must equal the reference model. Two supplements are labelled as such and never counted as coverage: free-running repeated threads (sampling) and a ThreadSanitizer build of the thread bodies (race detector).",
+            "Every interleaving of the threads' calls (1680 / 2520 schedules per scenario, 15 scenarios) is executed in a fresh process with real OS threads under a baton scheduler, so each lazy global is first touched at every position by every thread, and again on a single thread; per-thread results must equal the reference model. Two supplements are labelled as such and never counted as coverage: free-running repeated threads (sampling) and a ThreadSanitizer build of the thread bodies (race detector).",
             "switches only between API calls: pre-emption inside Once / CPUID caching / a compression is out of reach (DESIGN.md section 10)",
             True),
     "C19": ("venum", "exploration", "bounded-exhaustive enumeration of every public method x operand alphabet x all rotation amounts x all lane indices against wrapping scalar arithmetic, in two build profiles",
